@@ -79,7 +79,7 @@ func (w *World) mineFixed(t *rapid.T, cbOuts []*wire.TxOut, txs []*wire.MsgTx, a
 		t.Fatalf("HARNESS: attach: %v", err)
 	}
 	if announce {
-		w.env.Announce(blk.MsgBlock())
+		w.announce(blk.MsgBlock())
 		w.tipAnnounced = true
 	} else {
 		w.tipAnnounced = false
